@@ -120,8 +120,11 @@ theorem preserves_disconnectInterface (cache : Cache) (i : IfArg) : Preserves P 
 theorem preserves_detachAll (ifs : List Nid) : Preserves P (detachAll ifs) := by
   unfold detachAll
   refine preserves_forEach (fun i => ?_)
+  -- `if Rules.detachSkipsGone && !there then pure () else …` (interface already gone: skipped)
+  refine Preserves.bind (ReadOnly.preserves (readOnly_read _)) (fun _ => ?_)
+  refine Preserves.ite (ReadOnly.preserves (readOnly_pure _)) ?_
   refine Preserves.bind (ReadOnly.preserves (readOnly_findNode _)) (fun _ => ?_)
-  have body : ∀ kids : List Nid, Preserves P (forEach (i :: kids) fun ii => do
+  have inner : ∀ (ii : Nid), Preserves P (do
         let peers ← peersOf ii
         let pn ← mapM' findNode peers
         have sp : List GNode := List.filter (fun n => n.typ == "ServicePort") pn
@@ -131,9 +134,8 @@ theorem preserves_detachAll (ifs : List Nid) : Preserves P (detachAll ifs) := by
             let _ ← parentService p.nid
             let _ ← disconnectInterface [] (IfArg.iface ii "")
             Pure.pure ()
-          | _ => raise Err.topology) := by
-    intro kids
-    refine preserves_forEach (fun ii => ?_)
+          | _ => raise Err.topology : M Topo Unit) := by
+    intro ii
     refine Preserves.bind (ReadOnly.preserves (readOnly_peersOf _)) (fun _ => ?_)
     refine Preserves.bind (ReadOnly.preserves (readOnly_mapM' (fun _ => readOnly_findNode _))) (fun _ => ?_)
     dsimp only
@@ -145,8 +147,14 @@ theorem preserves_detachAll (ifs : List Nid) : Preserves P (detachAll ifs) := by
     · exact ReadOnly.preserves (readOnly_raise _)
   show Preserves P (if _ then _ else _)
   refine Preserves.ite ?_ ?_
-  · exact Preserves.bind (ReadOnly.preserves (readOnly_firstNeighbor _ _ _)) (fun kids => body kids)
-  · exact Preserves.bind (ReadOnly.preserves (readOnly_pure _)) (fun kids => body kids)
+  · refine Preserves.bind (ReadOnly.preserves (readOnly_firstNeighbor _ _ _)) (fun kids => ?_)
+    refine preserves_forEach (fun ii => ?_)
+    refine Preserves.bind (ReadOnly.preserves (readOnly_read _)) (fun _ => ?_)
+    exact Preserves.ite (ReadOnly.preserves (readOnly_pure _)) (inner ii)
+  · refine Preserves.bind (ReadOnly.preserves (readOnly_pure _)) (fun kids => ?_)
+    refine preserves_forEach (fun ii => ?_)
+    refine Preserves.bind (ReadOnly.preserves (readOnly_read _)) (fun _ => ?_)
+    exact Preserves.ite (ReadOnly.preserves (readOnly_pure _)) (inner ii)
 
 theorem preserves_removeNode (name : String) : Preserves P (removeNode name) := by
   unfold removeNode
